@@ -45,6 +45,8 @@ type Case struct {
 	// Extra: an extra answer through a packing helper at a chosen stage of the
 	// first reply's life (extra_test.go); Rounds is empty then.
 	Extra *ExtraPlan `json:"extra,omitempty"`
+	// VTag: a Tversion carrying an arbitrary tag (vtag_test.go); Rounds is empty then.
+	VTag *VTagPlan `json:"vtag,omitempty"`
 }
 
 const deadline = 30 * time.Second
@@ -527,6 +529,24 @@ func execute(test string, c *Case) error {
 		labelFlush(c)
 		hx.Sample(test, c)
 		return verdict(runFlush(c))
+	}
+	if c.VTag != nil {
+		if c.VTag.Tag != ref9p.NOTAG {
+			b, _ := json.Marshal(c)
+			hx.NonTrivial(b)
+		}
+		hx.Label(fmt.Sprintf("tversion tag notag=%v again=%v bad=%v", c.VTag.Tag == ref9p.NOTAG, c.VTag.Again, c.VTag.Bad))
+		hx.Sample(test, c)
+		err := runVTag(c)
+		if h, ok := err.(hangErr); ok {
+			// nothing is held in this case: no reply at all is a missing reply
+			if blocked := hx.BlockedInGo9p(); blocked != "" {
+				return fmt.Errorf("%s; goroutines blocked inside go9p:\n%s", string(h), blocked)
+			}
+			hx.Inconclusive(string(h))
+			return nil
+		}
+		return err
 	}
 	if c.Extra != nil {
 		if extraNontrivial(c.Extra) {
